@@ -21,6 +21,10 @@ class AbstractDenseTimeOfflineInterpreter(AbstractOfflineInterpreter, DenseTimeI
         # check ast exists
         self.exist_ast()
 
+        # every evaluation starts from the declared variables, not from the data of an earlier call
+        for var in self.ast.free_vars:
+            self.ast.var_object_dict[var] = self.ast.create_var_from_name(var)
+
         # update the value of every input variable
         self.set_variable_to_ast_from_dataset(dataset)
 
